@@ -180,6 +180,8 @@ def check_roundtrip(case, rec):
         rec.cls("with_max_boreholes")
     if case["continue"]:
         rec.cls("with_continue")
+    if case["geom"].get("flat_nogo") or case["geom"].get("flat_property"):
+        rec.cls("constrained_flat_polygon_argument")
     if case["method"] == "ROWWISE":
         rec.cls("rowwise_with_ratio" if case["geom"]["perimeter_spacing_ratio"] is not None else "rowwise_without_ratio")
     rec.nontriv((case["method"], case["bhe"]["pipe"]["type"], case["bhe"]["fluid"]["name"], case["max_boreholes"] is not None,
@@ -224,7 +226,9 @@ def check_designs(case, rec):
 
 
 def _cfg():
-    def tweak(s, rot_edge, cap, keep_calib=False):
+    def tweak(s, rot_edge, cap, flat=(False, False), keep_calib=False):
+        if s["method"] == "BIRECTANGLECONSTRAINED":
+            s["geom"]["flat_property"], s["geom"]["flat_nogo"] = flat
         if s["method"] == "ROWWISE" and rot_edge:
             s["geom"]["min_rotation"], s["geom"]["max_rotation"] = -90.0, 90.0
         if cap is not None:
@@ -233,7 +237,8 @@ def _cfg():
             s["loads"] = {k: v for k, v in s["loads"].items() if k != "calib"}  # file round trips need no load calibration
         return s
 
-    return st.builds(tweak, gs.scenario(), st.booleans(), st.one_of(st.none(), st.integers(2, 500)))
+    return st.builds(tweak, gs.scenario(), st.booleans(), st.one_of(st.none(), st.integers(2, 500)),
+                     st.tuples(st.booleans(), st.booleans()))
 
 
 def search_roundtrip(ctx):
